@@ -103,6 +103,42 @@ Proof.
   - apply add_missing_nodup. constructor.
 Qed.
 
+(** a single file given as input, with an output: exactly one item, whatever the extension
+    of the input, at the path the decision gives *)
+Theorem collect_single_file f input out items :
+  fs_is_file f input = true ->
+  collect f input (Some out) = Some items ->
+  exists o, items = [(input, o)] /\
+            match output_decision (fs_is_dir f out) (fs_is_file f out) (is_some (path_extension out)) with
+            | AsFile => o = out
+            | InsideDirectory => exists n, file_name input = Some n /\ o = (out ++ [n])%list
+            end.
+Proof.
+  intros Hf H. unfold collect in H. rewrite Hf in H.
+  destruct (output_decision (fs_is_dir f out) (fs_is_file f out) (is_some (path_extension out))).
+  - inversion H. eauto.
+  - destruct (file_name input) as [n|]; [|discriminate]. cbn in H. inversion H. eauto.
+Qed.
+
+(** a single file given as input without output: processed in place if and only if its
+    extension is lua/luau *)
+Theorem collect_single_in_place f input items :
+  fs_is_file f input = true -> fs_is_dir f input = false ->
+  collect f input None = Some items ->
+  forall s o, In (s, o) items <-> (s = input /\ o = input /\ is_lua_path input = true).
+Proof.
+  intros Hf Hd Hc s o. destruct (collect_in_place f input items Hc) as [Hspec _]. rewrite Hspec.
+  assert (Hex : fs_get f input <> None).
+  { unfold fs_is_file in Hf. destruct (fs_get f input); [discriminate|discriminate]. }
+  split.
+  - intros [[H1 [H2 H3]] ->].
+    assert (s = input).
+    { destruct (path_eq_dec s input) as [E|E]; [exact E|]. exfalso.
+      assert (fs_is_dir f input = true) by (apply fs_is_dir_spec; exists s; auto). congruence. }
+    subst s. auto.
+  - intros [-> [-> H]]. split; [|reflexivity]. split; [exact Hex|]. split; [apply starts_with_refl|exact H].
+Qed.
+
 (** * The run *)
 
 Section Facts.
